@@ -93,4 +93,27 @@ func extractC06AlgFit(l *lean) {
 		})
 	}
 	l.def("body_sigVerifier", "List String", leanStrList(sb), sb)
+
+	// state.Add: the closure handed to s.db.Write, statement by statement, and the other arguments of that call (rollback /
+	// after-commit hooks, write lock) as exact source text
+	fss, sf := parseFile("network/dag/state.go")
+	c06Fset = fss
+	wb := []string{"<missing:state.Add/s.db.Write>"}
+	var hooks []string
+	if fd := funcDecl(sf, "Add"); fd != nil {
+		ast.Inspect(fd, func(n ast.Node) bool {
+			if ce, ok := n.(*ast.CallExpr); ok && c06Src(ce.Fun) == "s.db.Write" && len(ce.Args) >= 2 {
+				if fl, ok := ce.Args[1].(*ast.FuncLit); ok {
+					wb = c06Stmts(&ast.FuncDecl{Name: fd.Name, Type: fl.Type, Body: fl.Body})
+				}
+				for _, a := range ce.Args[2:] {
+					hooks = append(hooks, c06Src(a))
+				}
+				return false
+			}
+			return true
+		})
+	}
+	l.def("body_addWrite", "List String", leanStrList(wb), wb)
+	l.def("addWriteOptions", "List String", leanStrList(hooks), hooks)
 }
